@@ -269,7 +269,7 @@ fn default_echo(ctx: &Ctx, sink: &mut Sink) {
     for input in [b"a\xffb\0caf\xe9\0plain\0".to_vec(), b"\xfe\0".to_vec(), b"x\0y\0".to_vec()] {
         let out = std::process::Command::new(ctx.bin("xargs")).arg("-0")
             .stdin(std::process::Stdio::piped()).stdout(std::process::Stdio::piped()).stderr(std::process::Stdio::null())
-            .spawn().and_then(|mut ch| { use std::io::Write; ch.stdin.take().unwrap().write_all(&input)?; ch.wait_with_output() }).expect("run xargs");
+            .spawn().and_then(|mut ch| { use std::io::Write; let _ = ch.stdin.take().unwrap().write_all(&input); ch.wait_with_output() }).expect("run xargs");
         let mut text = out.stdout.clone();
         if text.last() == Some(&b'\n') { text.pop(); }
         let all: Vec<Vec<u8>> = text.split(|b| *b == b' ').map(|x| x.to_vec()).collect();
